@@ -140,7 +140,10 @@ SlotCases ==
   \* annotated containers, empty containers, typed-null containers, nesting
   \o << <<Val("list", AnnA, <<>>), Val("sexp", AnnA, <<>>), Val("struct", AnnA, <<>>)>>,
         <<Val("list", <<>>, <<Val("list", <<>>, <<Val("sexp", <<>>, <<Val("struct", <<>>, <<>>)>>)>>)>>)>>,
-        <<>>,
+        <<>> >>
+
+\* forests used by the writer round trips only (C01, C04, ...)
+NestedLong == <<
         \* a CHILD container whose content crosses the 2-byte / 3-byte length boundary (16383, 16384 bytes and more),
         \* inside a parent, annotated, and as a struct field, followed by another value
         <<Val("list", <<>>, <<Val("list", <<>>, <<Val("string", <<>>, Rep(122, 16380))>>), IntOne>>), IntOne>>,
@@ -148,7 +151,8 @@ SlotCases ==
         <<Val("sexp", <<>>, <<Val("list", <<>>, <<Val("string", <<>>, Rep(122, 16384))>>), IntOne>>), IntOne>>,
         <<Val("struct", <<>>, << [name |-> TextTok(<<97>>), val |-> Val("struct", <<>>, << [name |-> TextTok(<<98>>), val |-> Val("blob", <<>>, Rep(7, 20000))] >>)],
                                 [name |-> TextTok(<<99>>), val |-> IntOne] >>), IntOne>>,
-        <<Val("list", <<>>, <<Val("sexp", AnnA, <<Val("clob", <<>>, Rep(65, 16390))>>), IntOne>>), IntOne>> >>
+        <<Val("list", <<>>, <<Val("sexp", AnnA, <<Val("clob", <<>>, Rep(65, 16390))>>), IntOne>>), IntOne>>
+  >>
 
 
 (***************************************************************************)
